@@ -193,6 +193,18 @@ theorem view_immutable {s s' : Ldb} {h h' : List Ver} (hr : Reach s h) (hr' : Re
   rw [(hscan' p).2]
   simp only [scanSpec, h1, h2]
 
+/-- the model totalises two places where the Go code dereferences a missing undo patch (the `none` branch of
+    `buildOverlay` in `Get`, and `Pop`): in every reachable state the undo patch of every height 1 … frontier height
+    is stored, so those branches are never taken for identifiers on the chain, and nothing is stored for other
+    heights. -/
+theorem rollbacks_complete {s : Ldb} {h : List Ver} (hr : Reach s h) (j : Nat) :
+    (1 ≤ j ∧ j ≤ s.frontierId.height → (lookupH s.rollbacks j).isSome = true) ∧
+    (j = 0 ∨ s.frontierId.height < j → lookupH s.rollbacks j = none) := by
+  have hf : s.frontierId.height = h.length := by
+    rw [hr.inv.inv0.frontierId, hr.inv.inv0.hchain.topHeight]
+  rw [hf]
+  exact ⟨fun hj => hr.inv.inv0.rb.isSome hr.inv.inv0.hchain j hj.1 hj.2, hr.inv.inv0.rbNone j⟩
+
 /-- T1 "for every cache state" (`I_cache`): `ldbManager.Get` may start from a cached pair (frontier `F` at caching
     time, overlay folded up to `F`) and only fold the undo patches of the heights above `F`. If the chain at caching
     time (`h`) is still the lower part of the current chain (`newer ++ h` — guaranteed because `Pop` purges the
